@@ -183,6 +183,23 @@ def serialise(c, res):
             rec["key"] = "trivial"
             recs.append(rec)
             continue
+        if o.kind not in ("canary", "cover") and not o.meta.get("use") and "plan" not in o.meta:
+            # most obligations are easy: try them in-process on the 'core' hypotheses before paying for serialisation
+            t_in = time.time()
+            try:
+                sv = z3.Solver()
+                sv.set("timeout", 400)
+                sv.add(solve.core_hyps(o.hyps, goal))
+                sv.add(z3.Not(goal))
+                if sv.check() == z3.unsat:
+                    rec["inline"] = dict(status="unsat", backend="z3", variant="core(inline)", seconds=round(time.time() - t_in, 3),
+                                         attempts=[], model=None)
+                    rec["smt2"] = {}
+                    rec["key"] = "inline:%s:%d" % (c.name, k)
+                    recs.append(rec)
+                    continue
+            except Exception:
+                pass
         full = solve.to_smt2(hyps, goal)
         key = hashlib.sha256(full.encode()).hexdigest()
         rec["key"] = key
@@ -204,6 +221,9 @@ def serialise(c, res):
             smt["lin"] = solve.to_smt2(lh, lg)
         except Exception:
             pass
+        core = solve.core_hyps(o.hyps, goal)
+        if len(core) < len(coi):
+            smt["core"] = solve.to_smt2(core, goal)
         near = solve.near_hyps(hyps, goal)
         if len(near) < len(coi):
             smt["near"] = solve.to_smt2(near, goal)
@@ -212,6 +232,9 @@ def serialise(c, res):
             base = [h for _, h in solve.prune_defs(o.hyps, cg)]
             base = solve.cone_of_influence(base, cg)
             smt["clear"] = solve.to_smt2(base, cg)
+            cc = solve.core_hyps(o.hyps, cg)
+            if len(cc) < len(base):
+                smt["clearcore"] = solve.to_smt2(cc, cg)
             try:
                 lh, lg = solve.linear_abstraction(base, cg)
                 smt["clearlin"] = solve.to_smt2(lh, lg)
